@@ -4,6 +4,8 @@ import os
 import numpy as np
 
 from .. import engine, optics as op, refmodel as rm
+from .. import histories
+from ..histories import t_callhist        # worker task of the history harness (mc/histories.py)
 
 PID = 'C02'
 MOD = 'mc.props.c02'
@@ -258,6 +260,7 @@ def run(tier, seed, acc, procs=None):
                     acc.transitions += 1
                     tasks.append(('t_cfg', {'tier': tier, 'seed': seed, 'pupil': p, 'support': s, 'dx': dxi, 'du': dui}))
     acc.states += 1
+    tasks += histories.tasks_for(PID, seed)        # pairwise call histories over the operations this property is anchored in
     engine.run_parallel(MOD, tasks, acc, procs)
     return {
         'rule': 'cross product pupil shape x support x dx (scalar/per-axis) x du (scalar/per-axis) x (wavelength, focal '
@@ -273,5 +276,8 @@ def run(tier, seed, acc, procs=None):
 
 
 def replay(case, acc):
+    if case.get('kind') == 'histop':
+        import os as _os
+        return histories.chk_case(case, acc, int(_os.environ.get('VERIF_SEED', '0') or 0))
     seed = int(os.environ.get('VERIF_SEED', '0') or 0)
     (chk_round if case['kind'] == 'round' else chk)(case, acc, seed)
